@@ -43,8 +43,25 @@ def guard_for(s):
 
 @rule('C07', 'R07.1', 'panic-site inventory: every arithmetic assert, unwrap/expect, index, slice copy and panicking operator is discharged')
 def r1(c):
+    inventory(c)
+    # the inventory must see the classic cases in the fixture
+    fs = panics.sites(c.FX, 'posctl')
+    bad = [s for s in fs if s.fn.endswith('unguarded_increment') and not panics.auto_discharge(s)]
+    good = [s for s in fs if s.fn.endswith('guarded_increment') and not s.fn.endswith('unguarded_increment') and not panics.auto_discharge(s)]
+    idx = [s for s in fs if s.fn.endswith('slice_index') and s.kind == 'index']
+    unw = [s for s in fs if s.fn.endswith('plain_unwrap') and s.kind == 'unwrap']
+    c.control('unguarded `x + 1` on u16 is reported', len(bad) == 1)
+    c.control('`x + 1` behind `x != MAX` is discharged', len(good) == 0)
+    c.control('slice indexing is inventoried', len(idx) >= 1)
+    c.control('unwrap is inventoried', len(unw) >= 1)
+
+
+def inventory(c, only=None, floor=100):
+    """the panic-site inventory, over all of rodbus or over the functions accepted by `only` (a predicate on the function path)"""
     P = c.P
     ss = panics.sites(P, 'rodbus')
+    if only is not None:
+        ss = [s for s in ss if only(s.fn)]
     n_auto = n_tab = 0
     classes = {}
     seen_keys = set()
@@ -69,20 +86,10 @@ def r1(c):
             c.ob('site/%s' % s.key, False, 'every panic-capable site has a dominating guard, a width argument or a recorded invariant',
                  'undischarged %s `%s` in %s' % (s.kind, s.sig, s.fn), s.loc(), kind='undischarged')
     c.call_sites += len(ss)
-    c.floor('panic-capable sites inventoried', len(ss), 100)
-    c.counts['R07.1 auto-discharged'] = (n_auto, 0)
-    c.counts['R07.1 table-discharged'] = (n_tab, 0)
-    c.counts['R07.1 table classes'] = (sum(classes.values()), 0)
-    # the inventory must see the classic cases in the fixture
-    fs = panics.sites(c.FX, 'posctl')
-    bad = [s for s in fs if s.fn.endswith('unguarded_increment') and not panics.auto_discharge(s)]
-    good = [s for s in fs if s.fn.endswith('guarded_increment') and not s.fn.endswith('unguarded_increment') and not panics.auto_discharge(s)]
-    idx = [s for s in fs if s.fn.endswith('slice_index') and s.kind == 'index']
-    unw = [s for s in fs if s.fn.endswith('plain_unwrap') and s.kind == 'unwrap']
-    c.control('unguarded `x + 1` on u16 is reported', len(bad) == 1)
-    c.control('`x + 1` behind `x != MAX` is discharged', len(good) == 0)
-    c.control('slice indexing is inventoried', len(idx) >= 1)
-    c.control('unwrap is inventoried', len(unw) >= 1)
+    c.floor('panic-capable sites inventoried', len(ss), floor)
+    c.counts['%s auto-discharged' % c.cur] = (n_auto, 0)
+    c.counts['%s table-discharged' % c.cur] = (n_tab, 0)
+    c.counts['%s table classes' % c.cur] = (sum(classes.values()), 0)
 
 
 @rule('C07', 'R07.2', "framing pairing behind format_mbap's `expect`: TCP writers are only combined with MBAP readers and TCP headers")
@@ -233,7 +240,8 @@ def r4(c):
                     continue
                 c.ob('closed/%s/%s' % (fn_, key.rsplit('::', 2)[-2] + '::' + key.rsplit('::', 1)[-1]), False, 'the closed/shutdown outcome of %s is examined inside the loop' % key, 'no switch on that outcome found', cs.loc())
                 continue
-            ok = all(cs.node not in b.reach_set(e) for e in edges)
+            rets_ = {('b', i_) for i_ in b.return_blocks()}
+            ok = all(cs.node not in b.reach_set(e) and bool(b.reach_set(e) & rets_) for e in edges)
             c.ob('closed/%s/%s' % (fn_, key.rsplit('::', 2)[-2] + '::' + key.rsplit('::', 1)[-1]), ok, 'from the closed/shutdown outcome of %s the loop is left (the wait is not re-entered)' % key.rsplit('::', 1)[-1],
                  'edges %s' % edges, cs.loc())
     c.floor('channel waits inside loops', n, 6)
@@ -296,3 +304,10 @@ def r6(c):
     for b in logs:
         unw = [cs for cs in b.calls() if cs.is_(*panics.PANIC_CALLS)]
         c.ob('no-unwrap/%s' % b.path, not unw, 'Loggable::log never unwraps a re-parse result', str([x.callee for x in unw]), loc_of(b))
+
+
+@rule('C07', 'R07.7', 'no wedge while a request is outstanding: one deadline per transaction, raced with every wait for a frame (C12/R12.1, R12.2) - a stream of unrelated frames cannot keep the task from its queue forever')
+def r7(c):
+    from rules import c12
+    c12.r1(c)
+    c12.r2(c)
